@@ -36,7 +36,7 @@ ASSUMPTIONS.update({
     "bool_value": "uninterpreted ghost: the Garden Bool value for a Rust bool",
 })
 
-LEMMAS = {"lemma_trunc_is_rust_div": {"C04"}, "lemma_trunc_div_i64": {"C04"}}
+LEMMAS = {"lemma_trunc_is_rust_div": {"C04"}, "lemma_trunc_div_i64": {"C04"}, "lemma_pow_small_base": {"C04"}, "lemma_pow_abs_ge_pow2": {"C04"}, "lemma_pow2_mono": {"C04"}, "lemma_pow2_64": {"C04"}, "lemma_pow_huge": {"C04"}}
 
 UNVERIFIED = {
     "C04": ["eval_float_binop's block: vstd gives f64 `+ - * /` only uninterpreted specs, so no functional float obligation is stated (machine IEEE arithmetic taken as given)",
@@ -150,7 +150,9 @@ def build(tier):
                 ("ge", "%s is GreaterThanOrEqual ==> ok_bool(r, lhs_num >= rhs_num)" % k, {"C04"}),
             ],
             hints=[("BinaryOperatorKind::Divide => {", "after",
-                    "proof { lemma_trunc_div_i64(lhs_num as int, rhs_num as int); }")],
+                    "proof { lemma_trunc_div_i64(lhs_num as int, rhs_num as int); }"),
+                   ("BinaryOperatorKind::Exponent => {", "after",
+                    "proof { lemma_pow_huge(lhs_num as int, rhs_num as int); }")],
             props=both))
 
     u.add_block_fn(
